@@ -367,6 +367,181 @@ class G:
                   "op 2 unconstrain 0", "op 3 remove_space_dimensions 1 0", "stall", "end"]
         return lines
 
+    # ---- targeted cases (gaps found by seeded changes) ----
+    def grid_con(self, n, terms, b, kind=">="):
+        """sum coef_i x_i + b kind 0 with the given integer terms"""
+        v = [0] * n
+        for (i, c) in terms: v[i] += c
+        return "%s %d %s" % (kind, b, " ".join(map(str, v)))
+
+    def open_box_case(self, cid, kind):
+        """boxes with independently open / closed ends on a small integer grid; constraints (interval and not) whose
+        bounds touch the ends exactly: relation_with, refine / propagate with non-interval (in)equalities, difference,
+        intersection, upper bound, Box(NNC polyhedron)"""
+        r = self.r
+        n = r.choice([1, 2, 2, 3])
+        strict_ok = kind in ("box_q", "box_d")
+        def box_cons():
+            cs = []
+            for i in range(n):
+                if r.random() < 0.15: continue
+                lo = r.randint(0, 2); hi = lo + r.randint(0, 2)
+                a = r.choice([1, 1, 2])
+                if r.random() < 0.85: cs.append(self.grid_con(n, [(i, a)], -a * lo if a == 1 or r.random() < 0.5 else -a * lo - 1, ">" if strict_ok and r.random() < 0.5 else ">="))
+                if r.random() < 0.85: cs.append(self.grid_con(n, [(i, -a)], a * hi if a == 1 or r.random() < 0.5 else a * hi + 1, ">" if strict_ok and r.random() < 0.5 else ">="))
+            return cs or [self.grid_con(n, [(0, 1)], 0)]
+        def touching_con(allow_multi=True):
+            k = r.choice(["=", ">=", ">=", ">"] if strict_ok else ["=", ">=", ">="])
+            if n > 1 and allow_multi and r.random() < 0.55:
+                vs = r.sample(range(n), r.randint(2, n))
+                terms = [(v, r.choice([-2, -1, 1, 1, 2, 3])) for v in vs]
+            else:
+                terms = [(r.randrange(n), r.choice([-2, -1, 1, 2]))]
+            return self.grid_con(n, terms, r.randint(-4, 4), k)
+        x = box_cons(); y = box_cons()
+        lines = ["case %s" % cid,
+                 "new 0 %s %d cons %d %s" % (kind, n, len(x), " ".join(x)),
+                 "new 1 %s %d cons %d %s" % (kind, n, len(y), " ".join(y)),
+                 "new 2 nncpoly %d cons %d %s" % (n, len(x) + 1, " ".join(x + [touching_con()])),
+                 "new 3 %s %d from 2 poly" % (kind, n), "new 4 %s %d from 2 any" % (kind, n), "copy 5 0", "copy 6 0", "copy 7 0"]
+        for _ in range(3): lines.append("qry 0 relation_with_con %s" % touching_con())
+        lines.append("qry 0 relation_with_con %s" % touching_con(False))
+        lines.append("op 5 %s %s" % (r.choice(["refine_with_constraint", "refine_with_constraint", "add_constraint"]), touching_con()))
+        lines.append("op 6 propagate_constraints 1 %s" % touching_con())
+        lines.append("op 7 refine_with_constraints 2 %s %s" % (touching_con(), touching_con()))
+        lines += ["qry 0 contains 1", "qry 0 is_disjoint_from 1", "qry 0 strictly_contains 5", "qry 0 equals 5",
+                  "qry 0 maximize %d 0 %s" % (n, " ".join(str(r.choice([-1, 0, 1, 2])) for _ in range(n))),
+                  r.choice(["op 0 difference_assign 1", "op 1 difference_assign 0"]),
+                  r.choice(["op 5 upper_bound_assign 6", "op 5 intersection_assign 6", "op 5 upper_bound_assign_if_exact 6", "op 6 difference_assign 5"]),
+                  "stall", "end"]
+        return lines
+
+    def eq_refine_case(self, cid, kind):
+        """equalities a*e == b with a not dividing b, through refine_* and through the converting constructors"""
+        r = self.r
+        f = fam(kind)
+        n = r.choice([2, 2, 3])
+        a = r.choice([2, 3, 3, 4, 5])
+        b = r.choice([k for k in range(-9, 10) if k % a != 0])
+        if car(kind) == "i8" and r.random() < 0.3: b = r.choice([-1, 1]) * r.choice([251, 253, 127, 125])
+        i = r.randrange(n)
+        if f == "box" or r.random() < 0.3: terms = [(i, r.choice([-a, a]))]
+        else:
+            j = r.choice([k for k in range(n) if k != i])
+            terms = [(i, a), (j, -a)] if f == "bds" or r.random() < 0.5 else [(i, r.choice([-a, a])), (j, r.choice([-a, a]))]
+        eq = self.grid_con(n, terms, b, "=")
+        other = self.con(kind, n)
+        lines = ["case %s" % cid,
+                 "new 0 %s %d %s" % (kind, n, r.choice(["universe", "cons 1 " + other])),
+                 "new 1 cpoly %d cons 1 %s" % (n, eq),
+                 "new 2 grid %d cgs 1 0 %s" % (n, eq.split(" ", 1)[1]),
+                 "new 3 %s %d from 1 poly" % (kind, n), "new 4 %s %d from 1 simplex" % (kind, n), "new 5 %s %d from 1 any" % (kind, n),
+                 "new 6 %s %d from 2 any" % (kind, n),
+                 "copy 7 0", "copy 8 0",
+                 "op 0 refine_with_constraint %s" % eq,
+                 "op 7 refine_with_constraints 2 %s %s" % (other, eq),
+                 "op 8 refine_with_congruence 0 %s" % eq.split(" ", 1)[1],
+                 "qry 0 is_empty", "qry 3 contains 5", "stall", "end"]
+        return lines
+
+    def affine_general_case(self, cid, kind):
+        """general-form expressions (several variables, negative coefficients) on shapes where every variable is bounded"""
+        r = self.r
+        n = 3
+        cs = []
+        for i in range(n):
+            lo = r.randint(-3, 2); hi = lo + r.randint(0, 4)
+            cs += [self.grid_con(n, [(i, 1)], -lo), self.grid_con(n, [(i, -1)], hi)]
+        for _ in range(r.randint(0, 2)):
+            c = self.con(kind, n)
+            if not c.startswith(">"): cs.append(c)
+        def gexpr():
+            while True:
+                co = [r.choice([-3, -2, -1, -1, 0, 1, 2]) for _ in range(n)]
+                if sum(1 for x in co if x) >= 2 and any(x < 0 for x in co): break
+            return "%d %d %s" % (n, r.randint(-3, 3), " ".join(map(str, co)))
+        lines = ["case %s" % cid, "new 0 %s %d cons %d %s" % (kind, n, len(cs), " ".join(cs))]
+        for k in range(1, 6): lines.append("copy %d 0" % k)
+        den = lambda: r.choice([1, 1, 2, -1, -2])
+        lines += ["op 1 affine_image %d %d %s" % (r.randrange(n), den(), gexpr()),
+                  "op 2 affine_image %d %d %s" % (r.randrange(n), den(), gexpr()),
+                  "op 3 bounded_affine_image %d %d %s %s" % (r.randrange(n), den(), gexpr(), gexpr()),
+                  "op 4 generalized_affine_image %d %s %d %s" % (r.randrange(n), r.choice(["<=", ">=", "=="]), den(), gexpr()),
+                  "op 5 %s %d %s %d %s" % (r.choice(["generalized_affine_preimage", "generalized_affine_image"]), r.randrange(n), r.choice(["<=", ">="]), den(), gexpr()),
+                  "op 0 %s %d %d %s" % (r.choice(["affine_preimage", "bounded_affine_preimage"]), r.randrange(n), den(), gexpr() if r.random() < 0.5 else gexpr() + " " + gexpr()),
+                  "stall", "end"]
+        if "bounded_affine_preimage" in lines[-3] and lines[-3].count(" %d " % n) < 2:
+            lines[-3] = lines[-3] + " " + gexpr()
+        return lines
+
+    def lazy_dim_case(self, cid, kind):
+        """queries on an object left in the closed / reduced lazy state by an observer, after a dimension-changing
+        operation, compared with a twin rebuilt from its constraints"""
+        r = self.r
+        f = fam(kind)
+        n = r.choice([2, 3])
+        # a cycle of finite bounds through variable 0
+        cs = [self.grid_con(n, [(0, 1)], r.randint(0, 2)), self.grid_con(n, [(0, -1)], r.randint(1, 4))]
+        for i in range(1, n):
+            if f == "box":
+                cs += [self.grid_con(n, [(i, 1)], r.randint(0, 2)), self.grid_con(n, [(i, -1)], r.randint(1, 4))]
+            else:
+                cs += [self.grid_con(n, [(i, 1), (i - 1, -1)], r.randint(0, 3)), self.grid_con(n, [(i, -1), (i - 1, 1)], r.randint(0, 3))]
+        objs = {0: (kind, n)}
+        lines = ["case %s" % cid, "new 0 %s %d cons %d %s" % (kind, n, len(cs), " ".join(cs)),
+                 r.choice(["qry 0 is_empty", "op 0 closure", "op 0 reduction", "op 0 obs_minimized_constraints", "qry 0 maximize %d 0 %s" % (n, " ".join(["1"] * n)), "qry 0 is_bounded"])]
+        dimop = r.choice(["expand_space_dimension", "expand_space_dimension", "fold_space_dimensions", "map_space_dimensions", "remove_space_dimensions", "concatenate_assign", "add_space_dimensions_and_project"])
+        if dimop == "concatenate_assign":
+            lines.append("copy 3 0"); objs[3] = (kind, n)
+            lines.append("op 0 concatenate_assign 3"); objs[0] = (kind, 2 * n)
+        else:
+            lines.append(self.mutator(0, objs, [dimop]))
+        m = objs[0][1]
+        lines.append("new 1 %s %d twin 0" % (kind, m))
+        lines += ["qry 0 equals 1", "qry 1 equals 0", "qry 0 contains 1", "qry 1 contains 0", "qry 0 strictly_contains 1", "qry 0 is_disjoint_from 1"]
+        if m >= 2:
+            for _ in range(3):
+                i, j = r.sample(range(m), 2)
+                if dimop == "expand_space_dimension" and r.random() < 0.7: i = m - 1
+                co = [0] * m; co[i] = 1
+                if f != "box": co[j] = r.choice([-1, -1, 1]) if f == "oct" else -1
+                e = "%d 0 %s" % (m, " ".join(map(str, co)))
+                lines += ["qry 0 %s %s" % (r.choice(["maximize", "minimize", "bounds_from_above", "bounds_from_below"]), e)]
+                lines += ["qry 0 relation_with_con >= %d %s" % (r.randint(-2, 4), " ".join(str(-x) for x in co))]
+        lines += ["qry 0 is_bounded", "qry 0 affine_dimension", "stall", "end"]
+        return lines
+
+    def diff_eq_case(self, cid, kind):
+        """difference with a subtrahend holding an equality that the minuend straddles"""
+        r = self.r
+        f = fam(kind)
+        n = r.choice([1, 2, 2, 3])
+        cs = []
+        for i in range(n):
+            lo = r.randint(-1, 1); hi = lo + r.randint(1, 3)
+            cs += [self.grid_con(n, [(i, 1)], -lo), self.grid_con(n, [(i, -1)], hi)]
+        if f != "box" and n > 1 and r.random() < 0.5:
+            cs.append(self.grid_con(n, [(1, 1), (0, -1)] if f == "bds" else [(1, 1), (0, r.choice([1, -1]))], r.randint(0, 2)))
+        a = r.choice([1, 1, 2])
+        i = r.randrange(n)
+        if f != "box" and n > 1 and r.random() < 0.35:
+            j = r.choice([k for k in range(n) if k != i])
+            terms = [(i, a), (j, -a)] if f == "bds" else [(i, a), (j, r.choice([a, -a]))]
+        else:
+            terms = [(i, a)]
+        b = -r.randint(0, 2) * a - (1 if a == 2 and r.random() < 0.5 else 0)
+        if r.random() < 0.7: ys = [self.grid_con(n, terms, b, "=")]
+        else: ys = [self.grid_con(n, terms, b, ">="), self.grid_con(n, [(v, -c) for v, c in terms], -b, ">=")]
+        if r.random() < 0.3: ys.append(self.con(kind, n))
+        lines = ["case %s" % cid,
+                 "new 0 %s %d cons %d %s" % (kind, n, len(cs), " ".join(cs)),
+                 "new 1 %s %d cons %d %s" % (kind, n, len(ys), " ".join(ys)),
+                 "copy 2 0", "copy 3 1"]
+        if r.random() < 0.5: lines.append("op 1 %s" % r.choice(["closure", "reduction", "obs_minimized_constraints"]))
+        if r.random() < 0.3: lines.append("op 0 %s" % r.choice(["closure", "reduction"]))
+        lines += ["op 0 difference_assign 1", "qry 0 contains 2", "qry 2 contains 0", "op 3 difference_assign 2", "stall", "end"]
+        return lines
+
     def twin_case(self, cid, kind):
         """equal sets with different matrices, and sets one notch apart"""
         r = self.r
@@ -396,4 +571,22 @@ def make_cases(seed, count, kinds, maxdim=3, steps=6, ops=None, pq=0.3, start=0,
         elif u < mix[0] + mix[1] + mix[2] and fam(kind) != "box": out += g.cycle_pair(cid, kind)
         elif g.r.random() < 0.5: out += g.twin_case(cid, kind)
         else: out += g.chain_case(cid, kind)
+    return out
+
+
+def make_targeted(seed, count, kinds, start=0, which=None):
+    """cycles through the targeted generators (open boxes, non-dividing equalities, general-form affine
+    transformers, lazy state after dimension changes, difference with straddled equalities)"""
+    g = G(seed, 3)
+    out = []
+    names = which or ["open_box", "eq_refine", "affine_general", "lazy_dim", "diff_eq"]
+    i = 0; made = 0
+    while made < count:
+        kind = kinds[i % len(kinds)]; nm = names[(i // len(kinds)) % len(names)]; i += 1
+        f, c = fam(kind), car(kind)
+        if nm == "open_box" and f != "box": continue
+        if nm == "affine_general" and f == "box" and g.r.random() < 0.7: continue
+        cid = "t%d" % (start + made)
+        out += getattr(g, nm + "_case")(cid, kind); made += 1
+        if i > 50 * count + 1000: break
     return out
